@@ -1,5 +1,41 @@
 import GnpyModel.Scalar
-/- model file Interp (see DESIGN.md §2) -/
-namespace Gnpy
+/-
+Piecewise-linear interpolation as the code uses it:
+* `numpy.interp(x, xp, fp)` (clamps to the end values outside `[xp[0], xp[-1]]`) – used by `Fiber.cr`;
+* `scipy.interpolate.interp1d(xp, fp)(x)` with the default `bounds_error` (a `ValueError` outside the range,
+  turned into `SpectrumError` by `Fiber.interpolate_parameter_over_spectrum`) – used for the per-frequency
+  loss coefficient and the per-frequency dispersion.
+Knots are `(x, y)` pairs sorted by ascending `x` (the generators emit them sorted; `interp1d` sorts, `numpy.interp`
+requires it).
+-/
+namespace Gnpy.Interp
 
-end Gnpy
+section
+variable {α : Type} [Add α] [Sub α] [Mul α] [Div α] [Neg α] [NatCast α] [LT α] [LE α]
+  [DecidableLT α] [DecidableLE α]
+
+/-- value on the segment `(x0,y0)–(x1,y1)`: `slope * (x - x0) + y0` -/
+def seg (x x0 y0 x1 y1 : α) : α := (y1 - y0) / (x1 - x0) * (x - x0) + y0
+
+/-- walk the knots: `k` is the knot at or below `x` -/
+def interpGo (x : α) : (α × α) → List (α × α) → α
+  | k, [] => k.2
+  | k, k1 :: rest => if x < k1.1 then seg x k.1 k.2 k1.1 k1.2 else interpGo x k1 rest
+
+/-- `numpy.interp(x, xp, fp)`; the empty table (numpy raises) is given the value 0 -/
+def interp (x : α) : List (α × α) → α
+  | [] => ((0:Nat) : α)
+  | k :: rest => if x ≤ k.1 then k.2 else interpGo x k rest
+
+/-- abscissa of the last knot -/
+def lastX : (α × α) → List (α × α) → α
+  | k, [] => k.1
+  | _, k1 :: rest => lastX k1 rest
+
+/-- `interp1d(xp, fp)(x)` with `bounds_error=True`: `none` stands for the `ValueError` -/
+def interp1d (x : α) : List (α × α) → Option α
+  | [] => none
+  | k :: rest => if x < k.1 then none else if lastX k rest < x then none else some (interp x (k :: rest))
+
+end
+end Gnpy.Interp
